@@ -55,7 +55,7 @@ def scratch_root():
     return d
 
 
-def build_unit(name, cpp, roots, defines=(), sessions=2, cuts=(), inline_all=False, extra_c=(), cdefs=(), all_hooks=False):
+def build_unit(name, cpp, roots, defines=(), sessions=2, cuts=(), inline_all=False, extra_c=(), cdefs=(), all_hooks=False, coroutines=()):
     """compile harness `cpp` against /repo/include, translate, goto-cc.  returns dict(dir, c, gb, info)"""
     wd = os.path.join(scratch_root(), name)
     os.makedirs(wd, exist_ok=True)
@@ -78,7 +78,7 @@ def build_unit(name, cpp, roots, defines=(), sessions=2, cuts=(), inline_all=Fal
         raise BuildError('opt failed:\n' + err[-3000:])
     text = open(lll).read()
     try:
-        src, info = ll2c.translate(text, roots, dict(cuts=list(cuts) + DEFAULT_CUTS, all_hooks=all_hooks))
+        src, info = ll2c.translate(text, roots, dict(cuts=list(cuts) + DEFAULT_CUTS, all_hooks=all_hooks, coroutines=list(coroutines)))
     except Exception as e:
         raise BuildError('ll2c failed on %s: %r' % (cpp, e))
     if info['missing']:
@@ -92,7 +92,7 @@ def build_unit(name, cpp, roots, defines=(), sessions=2, cuts=(), inline_all=Fal
     info['ll_sha256'] = hashlib.sha256(text.encode()).hexdigest()
     info['ll_lines'] = text.count('\n')
     info['c_lines'] = src.count('\n')
-    cd = ['-D' + d for d in cdefs] + (['-DYK_HAVE_SI_VTABLE'] if pre else [])
+    cd = ['-D' + d for d in cdefs] + (['-DYK_HAVE_SI_VTABLE'] if pre else []) + (['-DYK_SEQ', '-DYK_NT=%d' % len(coroutines)] if coroutines else [])
     cmd = ['goto-cc', '-o', gb, cfile, os.path.join(VERIF, 'rt', 'rt.c')] + list(extra_c) + ['-I', os.path.join(VERIF, 'rt'), '-DYK_CBMC'] + cd
     rc, out, err, dt = sh(cmd, timeout=600)
     if rc != 0:
@@ -157,29 +157,36 @@ def parse_cbmc_json(out):
 
 
 def trace_inputs(trace):
+    """recorded nondet inputs (yk_in[]) and, for kind S, the schedule (yk_sched/yk_ctx_len/yk_ctx_fin) from a CBMC trace.
+    returns a list of ints; a schedule is appended as ['S', thread, hooks, finished] items"""
     ins = {}
     nin = 0
+    sch, ln, fin = {}, {}, {}
+    nctx = 0
+
+    def val(st):
+        v = st.get('value', {})
+        try:
+            return int(v.get('data')) & ((1 << 64) - 1)
+        except Exception:
+            b = v.get('binary')
+            return int(b, 2) if b else 0
     for st in trace or []:
         if st.get('stepType') != 'assignment':
             continue
         lhs = st.get('lhs', '')
-        m = re.fullmatch(r'yk_in\[(\d+)l*\]', lhs)
+        m = re.fullmatch(r'(yk_in|yk_sched|yk_ctx_len|yk_ctx_fin)\[(\d+)l*\]', lhs)
         if m:
-            v = st.get('value', {})
-            d = v.get('data')
-            try:
-                ins[int(m.group(1))] = int(d) & ((1 << 64) - 1)
-            except Exception:
-                b = v.get('binary')
-                if b:
-                    ins[int(m.group(1))] = int(b, 2)
+            {'yk_in': ins, 'yk_sched': sch, 'yk_ctx_len': ln, 'yk_ctx_fin': fin}[m.group(1)][int(m.group(2))] = val(st)
         elif lhs == 'yk_nin':
-            try:
-                nin = int(st.get('value', {}).get('data'))
-            except Exception:
-                pass
+            nin = val(st)
+        elif lhs == 'yk_nctx':
+            nctx = val(st)
     n = max(nin, (max(ins) + 1) if ins else 0)
-    return [ins.get(i, 0) for i in range(n)]
+    out = [ins.get(i, 0) for i in range(n)]
+    for c in range(nctx):
+        out.append(['S', sch.get(c, 0), ln.get(c, 0), fin.get(c, 0)])
+    return out
 
 
 def run_harness(unit, fn, tier='quick', timeout=300, mem_gb=24, default_data=4, recursion=1, tags=(), const_bound=17, sync_bound=2,
